@@ -33,3 +33,5 @@ CLAIM = dict(
          "lists) is checked by the oracle only.",
     technique="Lean 4 proof over an abstract lawful field + differential correspondence at Float through the interpreter",
 )
+
+CLAIM["text"] += ' Operands may be infinite (equal infinities are equal), and fixed cases cover a zero tolerance written without a unit and lists of different lengths.'
